@@ -135,11 +135,13 @@ func floatLattice(thorough bool) []float64 {
 	if thorough {
 		step = 1
 	}
-	for k := -1074; k <= 1023; k += step {
+	for k := -1074; k <= 1023; k++ {
 		v := math.Ldexp(1, k)
 		add(v)
-		add(math.Nextafter(v, math.Inf(1)))
-		add(math.Nextafter(v, 0))
+		if k%step == 0 || (k >= 30 && k <= 65) || (k >= -5 && k <= 5) {
+			add(math.Nextafter(v, math.Inf(1)))
+			add(math.Nextafter(v, 0))
+		}
 	}
 	for k := -323; k <= 308; k += step {
 		v := math.Pow(10, float64(k))
